@@ -297,13 +297,29 @@ class Repo:
         try:
             return self.functions[qual]
         except KeyError:
+            moved = self._moved(qual, self.functions)
+            if moved is not None:
+                self.__dict__.setdefault("requested", set()).add(moved.qual)
+                return moved
             raise AnalysisError(f"anchor vanished: function {qual}") from None
 
     def cls(self, qual: str) -> ClassInfo:
         try:
             return self.classes[qual]
         except KeyError:
+            moved = self._moved(qual, self.classes)
+            if moved is not None:
+                return moved
             raise AnalysisError(f"anchor vanished: class {qual}") from None
+
+    def _moved(self, qual: str, table: dict):
+        """A module-level function / class that is no longer where a rule expects it but exists, under the same name,
+        in exactly one other module of the package (moved during a reorganisation, usually imported back)."""
+        mod, _, name = qual.partition(":")
+        if "." in name or "<locals>" in name:
+            return None
+        hits = [v for q, v in table.items() if q.partition(":")[2] == name]
+        return hits[0] if len(hits) == 1 else None
 
     def find_func(self, name: str, module: str | None = None) -> FuncInfo:
         """Find a module-level function by its public name (following re-exports is not needed)."""
